@@ -274,11 +274,111 @@ func (x *Extractor) walkAt(fn *ssa.Function, e *env, mf *MethodFacts, via []stri
 	active[fn]++
 	defer func() { active[fn]-- }()
 	reach := x.reachable(e)
-	loops := x.loopBlocks(fn)
+	loopsAll := x.loopBlocks(fn)
+	loops := map[*ssa.BasicBlock]bool{}
+	for k, v := range loopsAll {
+		loops[k] = v
+	}
+	plans := x.unrollPlans(fn, e)
+	inUnrolled := map[*ssa.BasicBlock]bool{}
+	for _, pl := range plans {
+		for bb := range pl.body {
+			if bb != pl.hdr {
+				inUnrolled[bb] = true
+				loops[bb] = false // one pass per element of a list known in full: not a repetition
+			}
+		}
+	}
+	doBlock := x.walkAtBody(fn, e, mf, via, active, topPos, loops)
 	for _, b := range fn.Blocks {
 		if !reach[b] {
 			continue
 		}
+		if pl := plans[b]; pl != nil {
+			doBlock(b)
+			saved := e.override
+			for _, el := range pl.elems {
+				e.override = map[ssa.Value]Val{}
+				for k, v := range saved {
+					e.override[k] = v
+				}
+				for _, ev := range pl.elemVals {
+					e.override[ev] = el
+				}
+				e.reach = nil
+				inner := x.reachable(e)
+				for _, bb := range fn.Blocks {
+					if pl.body[bb] && bb != pl.hdr && inner[bb] {
+						doBlock(bb)
+					}
+				}
+			}
+			e.override = saved
+			e.reach = nil
+			reach = x.reachable(e)
+			continue
+		}
+		if inUnrolled[b] {
+			continue
+		}
+		doBlock(b)
+	}
+}
+
+// unrollPlan: a range loop over a package-level list literal (a table of the converter): its
+// body is walked once per entry, with "the current entry" fixed to that entry.
+type unrollPlan struct {
+	hdr      *ssa.BasicBlock
+	body     map[*ssa.BasicBlock]bool
+	elemVals []ssa.Value
+	elems    []Val
+}
+
+func (x *Extractor) unrollPlans(fn *ssa.Function, e *env) map[*ssa.BasicBlock]*unrollPlan {
+	out := map[*ssa.BasicBlock]*unrollPlan{}
+	for _, hdr := range fn.Blocks {
+		L := rangedList(hdr)
+		if L == nil {
+			continue
+		}
+		l, ok := x.eval(L, e).(ListV)
+		if !ok || !l.IsFinite || len(l.Finite) == 0 || len(l.Finite) > 32 || !strings.HasPrefix(l.Origin, "literal:") {
+			continue
+		}
+		body := loopBody(hdr)
+		nested := false
+		for h2 := range out {
+			if out[h2].body[hdr] || body[h2] {
+				nested = true
+			}
+		}
+		if nested {
+			continue
+		}
+		pl := &unrollPlan{hdr: hdr, body: body, elems: l.Finite}
+		for b := range body {
+			for _, ins := range b.Instrs {
+				switch r := ins.(type) {
+				case *ssa.UnOp:
+					if ia, ok := r.X.(*ssa.IndexAddr); ok && ia.X == L && rangeIndexOf(ia.Index) == hdr {
+						pl.elemVals = append(pl.elemVals, r)
+					}
+				case *ssa.Index:
+					if r.X == L && rangeIndexOf(r.Index) == hdr {
+						pl.elemVals = append(pl.elemVals, r)
+					}
+				}
+			}
+		}
+		if len(pl.elemVals) > 0 {
+			out[hdr] = pl
+		}
+	}
+	return out
+}
+
+func (x *Extractor) walkAtBody(fn *ssa.Function, e *env, mf *MethodFacts, via []string, active map[*ssa.Function]int, topPos token.Pos, loops map[*ssa.BasicBlock]bool) func(b *ssa.BasicBlock) {
+	return func(b *ssa.BasicBlock) {
 		e.facts = blockFacts(b)
 		e.memo = map[ssa.Value]Val{}
 		for _, ins := range b.Instrs {
